@@ -444,6 +444,11 @@ def check(prop, tier):
         results.append(sr)
         ev.add_v("repository test-suite with hook H3 (%d tests, %d skipped)" % (sr["tests"], len(sr["skipped"])), sr["merged"], [], sr["v_wall"])
         ev.cov["suite"] = {"tests_validated": sr["tests"], "skipped": sr["skipped"], "failed_tests_in_that_run": sr["failed_tests"]}
+    if prop == "C15" and not os.environ.get("VERIF_ONLY_GROUPS"):
+        import gckeep
+        gr = gckeep.run(tier, wd)
+        results.append(gr)
+        ev.add_v("gckeep: forced gc between tracked deletion and undo/redo (undo engine)", gr["merged"], gr["nontrivial"], gr["v_wall"])
     ev.cov["groups"] = [{k: g[k] for k in ("group", "replay", "used")} for g in r["gstats"]]
     ev.cov["rule"] = ("behaviours = TLC-enumerated histories (all operation sequences within the bounds of the G "
                       "configurations x all delivery orders to an observer; nested/merged groups validated on a seeded sample, sizes in "
